@@ -86,6 +86,10 @@ impl ModMap {
     fn insert(&mut self, k: Gc<ObjString>, v: Root<RefCell<ObjModule>>) -> (r: Option<Root<RefCell<ObjModule>>>)
         ensures final(self).view == old(self).view.insert(k.id(), v)
     { unimplemented!() }
+    #[verifier::external_body]
+    fn remove(&mut self, k: &Gc<ObjString>) -> (r: Option<Root<RefCell<ObjModule>>>)
+        ensures final(self).view == old(self).view.remove(k.id())
+    { unimplemented!() }
 }
 // `&path` coerced to &str: the text of an interned string; interning that text again yields the same object (C11)
 #[verifier::external_body]
@@ -240,7 +244,7 @@ impl Vm {
     pub open spec fn content_of(&self, k: int) -> ObjModule { self.mods[self.modules.view[k].id()] }
 
     // StartImport. Let p be the path operand.
-    //@fn file=yarel/src/vm.rs path=Vm::start_import_impl ret=r
+    //@fn file=yarel/src/vm.rs path=Vm::start_import_impl ret=r props=C14,C15
     //@  rewrite R1 R13
     //@  subst "self.modules.get(&path).map(|m| m.as_gc())" => "option_root_ref_as_gc(self.modules.get(&path))"
     //@  subst "module.borrow().imported" => "self.module_content(module).imported"
